@@ -4,7 +4,6 @@ import (
 	"fmt"
 	"go/token"
 	"go/types"
-	"strings"
 
 	"golang.org/x/tools/go/ssa"
 
@@ -418,42 +417,155 @@ func helperPostconditions(c *core.Ctx, helper *ssa.Function) (string, bool) {
 	return fmt.Sprintf("%d returns: begin < ret <= len, ret-begin <= k", n), true
 }
 
-// helperShape: the three paths of the boundary helper (greedy maximal part, escape pair kept together).
+// helperShape: the paths of the boundary helper, judged on linear forms (robust to how the index is spelled):
+//   - a path that tests no septet returns len(septets) and has established begin+k >= len(septets);
+//   - a path that found septets[i] == ESC returns i, with i == begin+k-1 (the last septet of the candidate part);
+//   - a path that found septets[i] != ESC returns i+1, with the same i.
 func helperShape(c *core.Ctx, helper *ssa.Function, escConst int64) (string, bool) {
 	ps, err := paths.Enumerate(helper, paths.Config{})
 	if err != nil {
 		return err.Error(), false
 	}
-	const full = "(p1+p2)"
+	if len(helper.Params) != 3 {
+		return "unexpected helper arity", false
+	}
+	p := prover.New(helper)
+	sept, begin, k := helper.Params[0], helper.Params[1], helper.Params[2]
+	full := p.LinOf(begin).Add(p.LinOf(k), 1) // begin + k
+	// absolute index of an element address with respect to the septet parameter
+	var absIndex func(e paths.Event, v ssa.Value) (prover.Lin, bool)
+	absIndex = func(e paths.Event, v ssa.Value) (prover.Lin, bool) {
+		v = e.Resolve(v)
+		if u, ok := v.(*ssa.UnOp); ok && u.Op == token.MUL {
+			v = e.Resolve(u.X)
+		}
+		ia, ok := v.(*ssa.IndexAddr)
+		if !ok {
+			return prover.Lin{}, false
+		}
+		idx := pathLin(p, e, ia.Index)
+		base := e.Resolve(ia.X)
+		for {
+			if base == ssa.Value(sept) {
+				return idx, true
+			}
+			sl, ok := base.(*ssa.Slice)
+			if !ok {
+				return prover.Lin{}, false
+			}
+			if sl.Low != nil {
+				idx = idx.Add(pathLin(p, e, sl.Low), 1)
+			}
+			base = e.Resolve(sl.X)
+		}
+	}
+	eq := func(a, b prover.Lin) bool { d := a.Add(b, -1); return d.IsConst() && d.C == 0 }
 	seenFinal, seenShift, seenFull := false, false, false
-	for _, p := range ps {
-		if p.Aborted != "" || len(p.Results) != 1 {
+	for _, pth := range ps {
+		if pth.Aborted != "" || len(pth.Results) != 1 {
 			return "helper path not analysable", false
 		}
-		var props []string
-		var last paths.Event
-		for _, e := range p.Events {
-			last = e
-			if e.Kind == paths.EvBranch {
-				props = append(props, proposition(e))
+		var lastEv paths.Event
+		if len(pth.Events) > 0 {
+			lastEv = pth.Events[len(pth.Events)-1]
+		}
+		r := pathLin(p, lastEv, pth.Results[0])
+		var escIdx *prover.Lin
+		escTaken := false
+		finalGuard := false
+		for _, e := range pth.Events {
+			if e.Kind != paths.EvBranch {
+				continue
+			}
+			bo, ok := e.Cond.(*ssa.BinOp)
+			if !ok {
+				continue
+			}
+			if bo.Op == token.EQL || bo.Op == token.NEQ {
+				for _, pair := range [][2]ssa.Value{{bo.X, bo.Y}, {bo.Y, bo.X}} {
+					if kk, ok := constInt(e.Resolve(pair[1])); ok && kk == escConst {
+						if ix, ok := absIndex(e, pair[0]); ok {
+							escIdx = &ix
+							escTaken = (bo.Op == token.EQL) == e.Taken
+						}
+					}
+				}
+				continue
+			}
+			// an inequality that establishes begin+k >= len(septets)
+			for _, f := range condFactsOf(p, e) {
+				if eq(f, full.Add(p.LenOf(sept), -1)) {
+					finalGuard = true
+				}
 			}
 		}
-		r := role(last, p.Results[0])
-		esc := fmt.Sprintf("p0[(%s-k1)]==k%d", full, escConst)
-		escAlt := fmt.Sprintf("k%d==p0[(%s-k1)]", escConst, full)
 		switch {
-		case r == "len(p0)" && len(props) == 1 && props[0] == full+">=len(p0)":
+		case escIdx == nil:
+			if !eq(r, p.LenOf(sept)) || !finalGuard {
+				return fmt.Sprintf("a path that tests no septet returns %s (expected len(septets) under begin+k >= len)", r), false
+			}
 			seenFinal = true
-		case r == "("+full+"-k1)" && len(props) == 2 && props[0] == full+"<len(p0)" && (props[1] == esc || props[1] == escAlt):
+		case !eq(*escIdx, full.Add(prover.Const(1), -1)):
+			return fmt.Sprintf("the septet tested for ESC is at index %s, not at begin+k-1 (the last septet of the candidate part)", *escIdx), false
+		case escTaken:
+			if !eq(r, *escIdx) {
+				return fmt.Sprintf("with ESC as the last septet the helper returns %s instead of begin+k-1", r), false
+			}
 			seenShift = true
-		case r == full && len(props) == 2 && props[0] == full+"<len(p0)" && (strings.Replace(props[1], "!=", "==", 1) == esc || strings.Replace(props[1], "!=", "==", 1) == escAlt) && strings.Contains(props[1], "!="):
-			seenFull = true
 		default:
-			return fmt.Sprintf("unexpected helper path: returns %s under %v", r, props), false
+			if !eq(r, full) {
+				return fmt.Sprintf("without ESC at the boundary the helper returns %s instead of begin+k", r), false
+			}
+			seenFull = true
 		}
 	}
 	if !(seenFinal && seenShift && seenFull) {
 		return fmt.Sprintf("helper paths incomplete (final %v, shifted %v, full %v)", seenFinal, seenShift, seenFull), false
 	}
 	return "final part -> len; last septet of a non-final part is ESC -> one less; otherwise a full part", true
+}
+
+// pathLin linearises v with the phis resolved by the edges taken on the path.
+func pathLin(p *prover.F, e paths.Event, v ssa.Value) prover.Lin {
+	v = e.Resolve(v)
+	switch x := v.(type) {
+	case *ssa.BinOp:
+		if isIntType(x.Type()) {
+			switch x.Op {
+			case token.ADD:
+				return pathLin(p, e, x.X).Add(pathLin(p, e, x.Y), 1)
+			case token.SUB:
+				return pathLin(p, e, x.X).Add(pathLin(p, e, x.Y), -1)
+			}
+		}
+	case *ssa.Convert:
+		if isIntType(x.Type()) && isIntType(x.X.Type()) {
+			return pathLin(p, e, x.X)
+		}
+	}
+	return p.LinOf(v)
+}
+
+// condFactsOf: the linear facts (L >= 0) a branch event establishes.
+func condFactsOf(p *prover.F, e paths.Event) []prover.Lin {
+	bo, ok := e.Cond.(*ssa.BinOp)
+	if !ok || !isIntType(bo.X.Type()) {
+		return nil
+	}
+	x, y := pathLin(p, e, bo.X), pathLin(p, e, bo.Y)
+	op := bo.Op
+	if !e.Taken {
+		op = map[token.Token]token.Token{token.LSS: token.GEQ, token.GEQ: token.LSS, token.GTR: token.LEQ, token.LEQ: token.GTR}[op]
+	}
+	switch op {
+	case token.GEQ:
+		return []prover.Lin{x.Add(y, -1)}
+	case token.LEQ:
+		return []prover.Lin{y.Add(x, -1)}
+	case token.GTR:
+		return []prover.Lin{x.Add(y, -1).Add(prover.Const(1), -1)}
+	case token.LSS:
+		return []prover.Lin{y.Add(x, -1).Add(prover.Const(1), -1)}
+	}
+	return nil
 }
